@@ -4,6 +4,8 @@ import contextlib
 import io
 import itertools
 
+import re
+
 import pyglove as pg
 from hypothesis import strategies as st
 
@@ -447,7 +449,9 @@ def execute(case):
                          law='trace-differs', **sig)
     return res
   # both succeeded: stdout, side effects and intermediates
-  if out.get('__stdout__') != rout.getvalue():
+  # (memory addresses in the repr of functions / objects differ between any two executions)
+  _addr = re.compile(r'0x[0-9a-fA-F]+')
+  if _addr.sub('0x', str(out.get('__stdout__'))) != _addr.sub('0x', rout.getvalue()):
     return res.violate('stdout %r, plain execution printed %r; program:\n%s' % (out.get('__stdout__'), rout.getvalue(), src),
                        law='stdout-differs', **sig)
   def norm(x):
